@@ -495,6 +495,15 @@ def struct_explain(prop):
             if prop.endswith("C03") and op[0] in ("u", "x", "rt") and _cls(o if op[0] == "u" else o[1]) != _cls(p if op[0] == "u" else p[1]):
                 return ("C03: Unserialize %s where the object rules (keys, property types, defaults, presence rules, "
                         "field assignment) determine %s: %s" % (_fmt(o)[:200], _fmt(p)[:200], _describe(schema, op)))
+            if prop.endswith("C03") and op[0] in ("u", "x", "rt") and isinstance(o, list) and isinstance(p, list):
+                # both accept, the VALUES differ: which value an absent property receives (its declared default, decoded
+                # and unserialized by the property type; a sub-object's own defaults only fill what that leaves open) and
+                # that a supplied value is never replaced are part of C03's object rules
+                ou, pu = (o, p) if op[0] == "u" else (o[1], p[1])
+                if _cls(ou) == "ok" and _cls(pu) == "ok" and ou != pu:
+                    return ("C03: Unserialize returns %s where the object rules (a supplied value is kept, an absent property "
+                            "with a default receives its declared default) determine %s: %s"
+                            % (_fmt(ou)[:300], _fmt(pu)[:300], _describe(schema, op)))
             if prop.endswith("C04") and re.search(r"panic|crash|hang", _fmt(o)):
                 return "C04: %s on %s" % (_fmt(o)[:100], _describe(schema, op))
         return None
